@@ -71,6 +71,10 @@ def templates():
     out.append(("F6", "0", [S + "send 1", S + "send 2", R + "drain 2 ; drain 0"]))
     out.append(("F6", "1", [S + "send 1 ; send 2 ; send 3", R + "recv ; recv ; drain 1"]))
     out.append(("F6", "1", [S + "trysend 1 ; send 2", S + "sendto 3 7", S + "send 4", R + "recvto 9 ; drain 0"]))
+    # F6b refill of the buffer from a blocked sender, through each copy of the receive prologue,
+    # with a third thread sending / observing while it happens
+    for rcv in ("recv", "recvto 9", "tryrecv", "tryrecvrt", "mkrecv 1 ; poll 1 1", "mkstream 1 ; poll 1 1", "drain 0"):
+        out.append(("F6", "1", [S + "trysend 1 ; send 2", R + rcv + " ; len ; tryrecv ; tryrecv", S + "trysend 5 ; len"]))
     # F7 stream over several waits
     out.append(("F7", "0", [R + "mkstream 1 ; poll 1 1 ; poll 1 1 ; poll 1 1 ; poll 1 1", S + "send 1 ; send 2"]))
     out.append(("F7", "1", [R + "mkstream 1 ; poll 1 1 ; poll 1 2 ; poll 1 1 ; poll 1 1", S + "trysend 1 ; trysend 2", "dropr ; drops"]))
